@@ -91,7 +91,10 @@ SetParamsCall == \E h \in LiveH : \E P \in SUBSET (NamesOf(st.models[h]) \cup (I
 SetDefaultCall == \E marg \in {0} \cup LiveH \cup (IF Invalid THEN {-1} ELSE {}) :
                    /\ marg = 0 => Len(st.models) < MaxModels
                    /\ Begin([A0 EXCEPT !.op = "setdefault", !.marg = marg])
-NewModelCall == \E named \in BOOLEAN, setdef \in BOOLEAN : \E nm \in (IF named THEN ModelNames ELSE {""}) :
+\* (the domains mention the state only so that TLC keeps this one action instead of splitting it per constant)
+NewModelCall == \E named \in {b \in BOOLEAN : Len(st.models) >= 0}, setdef \in {b \in BOOLEAN : Len(st.models) >= 0},
+                   nm \in {n \in ModelNames \cup {""} : Len(st.models) >= 0} :
+                   /\ named <=> nm # ""
                    /\ Len(st.models) < MaxModels
                    /\ Begin([A0 EXCEPT !.op = "newmodel", !.named = named, !.nm = nm, !.setdef = setdef])
 GetDefaultCall == /\ st.default = 0 => Len(st.models) < MaxModels
@@ -146,6 +149,8 @@ FlagsFollowClass == Visible => \A h \in LiveH \ touched : \A i \in 1..Len(st.mod
 \* after the setter returns, the flagged nodes are exactly the given ones
 SetterSetsExactly == AtReturn /\ call.op = "setparams" /\ st.raised = "" =>
    {n \in NamesOf(st.models[call.h]) : NodeAt(st.models[call.h], n).param} = SeqSet(call.P)
+\* ref.size of a live RandomVariable / Prior reference returns
+SizeReturns == AtReturn /\ call.op = "size" /\ ValidRef(st0, st0.refs[call.r1]) => st.raised = ""
 \* NOT kept by any Fix (controls)
 StaleNeverRevives == Visible => InvStaleNeverRevives(st)
 ModelNamesUnique == InvModelNamesUnique(st)
